@@ -107,7 +107,17 @@ Record creq := { q_ce : list string; q_body : option bytes;
    the number of body bytes, or -1 when none is declared (Transfer-Encoding: chunked).  The server
    model takes it as an independent input: nothing in the code may depend on it except that the
    handler sees it. *)
-Record wreq := { w_ce : list string; w_body : bytes; w_cl : Z }.
+(* w_rewind: what http.Request.GetBody yields (None = GetBody is nil: the body cannot be rewound).
+   net/http's transport calls it to REPLAY a request (reused connection dropped by the server,
+   HTTP/2 retry, redirect): the replayed request is the same request with that body. *)
+Record wreq := { w_ce : list string; w_body : bytes; w_cl : Z; w_rewind : option bytes }.
+
+(* what the transport sends when it replays the request (None = it cannot) *)
+Definition replay (w : wreq) : option wreq :=
+  match w.(w_rewind) with
+  | None => None
+  | Some b => Some {| w_ce := w.(w_ce); w_body := b; w_cl := w.(w_cl); w_rewind := w.(w_rewind) |}
+  end.
 
 Definition body_bytes (b : option bytes) : bytes := match b with Some x => x | None => [] end.
 
@@ -123,7 +133,12 @@ Definition blen (b : bytes) : Z := Z.of_nat (List.length b).
 (* an untouched request: net/http declares the length of a known body, none for an opaque reader *)
 Definition plain (r : creq) : wreq :=
   {| w_ce := r.(q_ce); w_body := body_bytes r.(q_body);
-     w_cl := if r.(q_stream) then (-1)%Z else blen (body_bytes r.(q_body)) |}.
+     w_cl := if r.(q_stream) then (-1)%Z else blen (body_bytes r.(q_body));
+     (* http.NewRequest sets GetBody for the known body types only; a nil body has none *)
+     w_rewind := match r.(q_body) with
+                 | None => None
+                 | Some b => if r.(q_stream) then None else Some b
+                 end |}.
 
 Section Codec.
   Variable enc : codec -> Z -> bytes -> bytes.      (* writer of that codec at that level, Write* + Close *)
@@ -154,7 +169,8 @@ Section Codec.
       match compress c (writer_level c l) r with
       | None => CError
       (* new request over the bytes.Buffer (its length is declared); headers cloned, encoding Added *)
-      | Some buf => CSent {| w_ce := r.(q_ce) ++ [t]; w_body := buf; w_cl := blen buf |}
+      (* http.NewRequestWithContext(.., buf *bytes.Buffer): GetBody re-reads a snapshot of the buffer *)
+      | Some buf => CSent {| w_ce := r.(q_ce) ++ [t]; w_body := buf; w_cl := blen buf; w_rewind := Some buf |}
       end.
 
   (* ClientConfig.Validate + ToClient + one request through the resulting transport *)
